@@ -16,7 +16,7 @@ attribute registries and the Unicode digit table -- from the running interpreter
   operator_order        the tuple parse_evaluation_expression iterates over; operators_keys = OPERATORS keys
   node_type_test_mapping   NODE_TYPE_TEST_MAPPING
   xpath_functions       registered functions: name, number of parameters, last parameter is *args
-  axis_names            every name n with getattr(Axis-object, n, None) is not None, with generator.__name__
+  axis_names            the members of Axis._names (the names Axis(name) accepts) with generator.__name__
   msg_*                 the message of every `raise XPathParsingError/XPathUnsupportedStandardFeature`,
                         f-strings as functions of their holes (hole texts listed in msg_holes)
   xpe_render            XPathParsingError.__str__ (shape-matched against a template, constants extracted)
@@ -555,14 +555,15 @@ def gen_xpath():
     out += "Definition node_type_test_mapping : list (str * str) := [" + \
            "; ".join("(%s, %s)" % (clit(k.value), clit(v.value)) for k, v in zip(m.keys, m.values)) + "].\n\n"
 
-    # -- the name the node test with an argument must have (assert tokens[0].string == "...")
+    # -- the name the node test with an argument must have (if tokens[0].string != "...": raise XPathParsingError)
     step = find_func(par_tree, "parse_location_step")
     names = [n.test.comparators[0].value for n in ast.walk(step)
-             if isinstance(n, ast.Assert) and isinstance(n.test, ast.Compare) and len(n.test.ops) == 1
-             and isinstance(n.test.ops[0], ast.Eq) and isinstance(n.test.comparators[0], ast.Constant)
-             and isinstance(n.test.comparators[0].value, str) and ast.unparse(n.test.left) == "tokens[0].string"]
+             if isinstance(n, ast.If) and isinstance(n.test, ast.Compare) and len(n.test.ops) == 1
+             and isinstance(n.test.ops[0], ast.NotEq) and isinstance(n.test.comparators[0], ast.Constant)
+             and isinstance(n.test.comparators[0].value, str) and ast.unparse(n.test.left) == "tokens[0].string"
+             and len(n.body) == 1 and isinstance(n.body[0], ast.Raise) and not n.orelse]
     if len(names) != 1:
-        raise Unsupported("parse_location_step: the assert on the name of a node test with an argument changed")
+        raise Unsupported("parse_location_step: the test on the name of a node test with an argument changed")
     out += "Definition pi_test_name : str := %s.\n" % clit(names[0])
     ops_excl = [n for n in ast.walk(find_func(par_tree, "parse_evaluation_expression"))
                 if isinstance(n, ast.Compare) and len(n.ops) == 1 and isinstance(n.ops[0], ast.NotIn)
@@ -585,27 +586,26 @@ def gen_xpath():
         rows.append("(%s, (%d, %s))" % (clit(k), len(ps), "true" if var else "false"))
     out += "Definition xpath_functions : list (str * (nat * bool)) := [\n  " + ";\n  ".join(rows) + "].\n"
 
-    # -- names Axis(name) accepts: getattr(<Axis object>, name.replace('-','_'), None) is not None
+    # -- names Axis(name) accepts: `if name not in self._names: raise ...; self.generator = getattr(self, name.replace('-','_'))`
     ax_init = find_func(ast_tree, "Axis.__init__")
-    if "getattr(self, name.replace('-', '_'), None)" not in ast.unparse(ax_init):
-        raise Unsupported("Axis.__init__ no longer looks the generator up with getattr(self, name.replace('-','_'), None)")
-    if any(hasattr(c, "__getattr__") for c in A.Axis.__mro__):
-        raise Unsupported("Axis defines __getattr__: the set of accepted names is not enumerable")
+    body = [ast.unparse(x) for x in ax_init.body]
+    if len(body) != 2 or not body[0].startswith("if name not in self._names:\n    raise XPathParsingError(") \
+            or body[1] != "self.generator = getattr(self, name.replace('-', '_'))":
+        raise Unsupported("Axis.__init__ is no longer `if name not in self._names: raise XPathParsingError(...); "
+                          "self.generator = getattr(self, name.replace('-', '_'))`")
+    names = getattr(A.Axis, "_names", None)
+    if not isinstance(names, frozenset) or not all(isinstance(x, str) for x in names):
+        raise Unsupported("Axis._names is not a frozenset of strings")
     probe = object.__new__(A.Axis)
     rows = []
-    for nm in sorted(dir(probe)):
+    for nm in sorted(names):
         try:
-            gobj = getattr(probe, nm, None)
-        except Exception:  # noqa: BLE001
-            raise Unsupported("getattr(Axis object, %r) raises" % nm)
-        if gobj is None:
-            continue
-        try:
+            gobj = getattr(probe, nm.replace("-", "_"))        # the second statement of __init__ must not fail
             gname = gobj.__name__
-            if not isinstance(gname, str):
-                gname = "<junk>"
         except Exception:  # noqa: BLE001
-            gname = "<junk>"
+            raise Unsupported("Axis._names contains %r but an Axis object has no such generator method" % nm)
+        if not callable(gobj) or not isinstance(gname, str):
+            raise Unsupported("Axis attribute for %r is not a method" % nm)
         rows.append("(%s, %s)" % (clit(nm), clit(gname)))
     out += "Definition axis_names : list (str * str) := [\n  " + ";\n  ".join(rows) + "].\n\n"
 
@@ -614,6 +614,7 @@ def gen_xpath():
     for q in ("group_enclosed_expressions", "parse_location_path", "parse_location_step",
               "parse_evaluation_expression"):
         fns.append((q, find_func(par_tree, q)))
+    fns.append(("parse", find_func(par_tree, "parse")))
     fns.append(("Axis", find_func(ast_tree, "Axis.__init__")))
     fns.append(("Function", find_func(ast_tree, "Function.__init__")))
     defs, table = message_defs(fns)
@@ -633,10 +634,25 @@ def gen_xpath():
     # -- parse(): the handler that fills in expression and position
     pf = find_func(par_tree, "parse")
     handler = [n for n in ast.walk(pf) if isinstance(n, ast.ExceptHandler)]
-    if len(handler) != 1 or ast.unparse(handler[0].type) != "XPathParsingError" or \
+    if len(handler) != 2 or ast.unparse(handler[0].type) != "XPathParsingError" or \
             [ast.unparse(s) for s in handler[0].body] != ["e.expression = expression",
                                                           "if e.position is None:\n    e.position = 0", "raise e"]:
         raise Unsupported("parse(): the XPathParsingError handler changed")
+    # except RecursionError: raise XPathParsingError(expression=expression, position=0, message=<literal>)
+    h2 = handler[1]
+    ok = ast.unparse(h2.type) == "RecursionError" and h2.name is None and len(h2.body) == 1 \
+        and isinstance(h2.body[0], ast.Raise) and isinstance(h2.body[0].exc, ast.Call) \
+        and ast.unparse(h2.body[0].exc.func) == "XPathParsingError" and not h2.body[0].exc.args
+    if ok:
+        kw = {x.arg: x.value for x in h2.body[0].exc.keywords}
+        ok = set(kw) == {"expression", "position", "message"} and ast.unparse(kw["expression"]) == "expression" \
+            and ast.unparse(kw["position"]) == "0" and isinstance(kw["message"], ast.Constant)
+    if not ok:
+        raise Unsupported("parse(): the RecursionError handler is not `raise XPathParsingError(expression=expression, "
+                          "position=0, message=<literal>)`")
+    tries = [n for n in ast.walk(pf) if isinstance(n, ast.Try)]
+    if len(tries) != 1 or tries[0] is not pf.body[0] or len(pf.body) != 1:
+        raise Unsupported("parse(): the body is no longer one try statement")
     caches = []
     for qual, tree in (("tokenize", tok_tree), ("parse", par_tree)):
         fd = find_func(tree, qual)
